@@ -194,6 +194,18 @@ func Run(j *job.Job, s *job.Sink) {
 			// that a module and its submodules, or two modules, bind one prefix to
 			// different modules
 			impPrefix := func(f *mod, unique string) string {
+				// a submodule whose belongs-to prefix is not the prefix of its module may use
+				// that very prefix for an import: in the submodule it denotes the imported
+				// module, in the module's own text the module
+				if f.sub && f.owner != nil && f.owner.prefix != f.prefix && r.Intn(3) == 0 {
+					taken := false
+					for _, p := range f.imports {
+						taken = taken || p == f.owner.prefix
+					}
+					if !taken {
+						return f.owner.prefix
+					}
+				}
 				if r.Intn(2) == 0 {
 					q := fmt.Sprintf("q%d", r.Intn(3))
 					taken := q == f.prefix
